@@ -356,7 +356,7 @@ class Result:
                 json.dumps([f["check"], f.get("run"), f.get("event")], sort_keys=True).encode()).hexdigest()[:10]))
             with open(rp, "w") as fh:
                 json.dump({"property": self.prop, "check": f["check"], "run": f.get("run"), "line": f.get("line"),
-                           "event": f.get("event"), "detail": f.get("detail"), "trace": f.get("lines", [])[:400],
+                           "event": f.get("event"), "detail": f.get("detail"), "trace": f.get("lines", [])[:3000],
                            "tier": self.tier, "seed": self.seed}, fh, indent=1)
             log("VIOLATION property=%s replay=%s" % (self.prop, rp))
             log("  check=%s run=%s event=%s" % (f["check"], f.get("run"), json.dumps(f.get("event"))[:300]))
